@@ -64,3 +64,49 @@ func vhNativeStat() {
 	fi, err = n.Stat(name)
 	vAssert(err == nil && fi.Size() == int64(len(second)), "after a write through the name Stat does not report the new size")
 }
+
+// vhNativeNames: C18 / C10 "each artifact is written next to its
+// configuration" on the native file system, for names the directory walk can
+// produce: hidden files and directories (`.leaf.pem`, `.pki/root.pem`,
+// `..data/a.pem`), nested and dotted directories, names with blanks. A file
+// written under a name is read back, found by Stat and removed by DeleteFile
+// under exactly that name below the base directory, and no other path comes
+// into existence (in particular not the name without its leading dots).
+func vhNativeNames() {
+	base := "/vdir"
+	if !vSymbolic() {
+		d, err := os.MkdirTemp("", "gopki-nativenames")
+		vAssert(err == nil, "cannot create a temporary directory")
+		defer os.RemoveAll(d)
+		base = d
+	}
+	n := nativefs{basepath: base, fsObj: os.DirFS(base)}
+	names := []string{"a.pem", ".leaf.pem", ".pki/root.pem", "..data/a.pem", "x/.y/z.pem", "v1.2/ca.prod.pem", "my ca/root ca.pem", "./plain.pem"}
+	alias := []string{"", "leaf.pem", "pki/root.pem", "data/a.pem", "x/y/z.pem", "", "", ""} // the name without its leading dots
+	k := vChoose("name", len(names))
+	name := names[k]
+	if !vSymbolic() {
+		dir := base + "/" + name
+		for j := len(dir) - 1; j >= 0; j-- {
+			if dir[j] == '/' {
+				dir = dir[:j]
+				break
+			}
+		}
+		vAssert(os.MkdirAll(dir, 0755) == nil, "cannot create the directory of the configuration")
+	}
+	content := append([]byte("-----BEGIN CERTIFICATE-----\n"), vBytes("content", 2)...)
+	vAssert(n.WriteFile(name, content) == nil, "writing an artifact failed")
+	got, err := os.ReadFile(base + "/" + name)
+	vReach("written")
+	vAssert(err == nil && string(got) == string(content), "the artifact is not where its name says (next to its configuration)")
+	if alias[k] != "" {
+		_, err = os.ReadFile(base + "/" + alias[k])
+		vAssert(err != nil, "an artifact was written to the name without its leading dots")
+	}
+	fi, err := n.Stat(name)
+	vAssert(err == nil && fi != nil && fi.Size() == int64(len(content)), "Stat does not find the artifact under its name")
+	vAssert(n.DeleteFile(name) == nil, "deleting the artifact failed")
+	_, err = os.ReadFile(base + "/" + name)
+	vAssert(err != nil, "a deleted artifact can still be read")
+}
